@@ -5,7 +5,7 @@
 (* the outcome and the logged observations.  Every applicable property     *)
 (* gets one verdict per record; nothing stops at the first failure.        *)
 (***************************************************************************)
-EXTENDS Flatten, Json
+EXTENDS Dedup, Json
 
 CONSTANT K
 Trace == ndJsonDeserialize("trace.ndjson")
@@ -121,7 +121,59 @@ Steps(rec) ==
      /\ (D = {} \/ LET i == CHOOSE i \in D : \A j \in D : i <= j IN
                       Out(<<"DIAG", rec.tid, "STEPS", rec.phases[i].ev \o "." \o rec.mode, TreeDiff(StepExpected(rec, rec.bundle, i), rec.phases[i].doc, <<>>)>>))
 
-Init == l \in 1..K /\ l <= N /\ Verdict(Trace[l]) /\ Steps(Trace[l])
-Next == l + K <= N /\ l' = l + K /\ Verdict(Trace[l']) /\ Steps(Trace[l'])
+\* ---- conformance of the flatten CONTEXT (Dedup.tla): the context is rebuilt from the logged imports, and every logged
+\* stripOAIGenForRef must be an enabled StripFor of the model, with the parents the model computes and an election the model allows;
+\* the document the model reaches at the end of each strip round is the recorded one.  Model drift = NOTE, like STEPS.
+RECURSIVE CtxRun(_, _, _, _)
+\* st: model state; i: index of the next phase snapshot; returns <<ok, witness>>
+CtxStripEvents(rec, st, evs) ==
+  LET RECURSIVE go(_, _)
+      go(s, es) ==
+        IF es = <<>> THEN <<TRUE, s, "">>
+        ELSE LET e == Head(es) IN
+             IF e.ev # "strip.one" THEN go(s, Tail(es))
+             ELSE LET k == e.keys[1] IN
+                  IF ~Strippable(s, k) THEN <<FALSE, s, "not-enabled">>
+                  ELSE IF Range(e.parents) # s.nr[k].par THEN <<FALSE, s, "parents">>
+                  ELSE IF e.parents[1] \notin Topmost(s.nr[k].par) THEN <<FALSE, s, "election">>
+                  ELSE go(StripFor(s, k, e.parents[1]), Tail(es))
+  IN go(st, evs)
+\* InlineSchemaNamer.Name tracks what it creates (generated names may collide too: then the entry is a deduplicated one)
+RECURSIVE TrackNames(_, _)
+TrackNames(s, es) ==
+  IF es = <<>> THEN s
+  ELSE LET e == Head(es) IN
+       TrackNames(IF e.ev = "name"
+                  THEN [s EXCEPT !.nr  = (e.keys[1] :> Ent(e.name, DefPath(e.name), e.oai, Carry(s.nr, e.keys[1]), Empty, {})) @@ @,
+                                 !.gen = IF e.oai THEN @ \cup {e.name} ELSE @]
+                  ELSE s, Tail(es))
+CtxRun(rec, b0, st0, i) ==
+  IF i > Len(rec.phases) THEN <<TRUE, "">>
+  ELSE LET cur == rec.phases[i]  evs == EventsAt(rec, i)  st == TrackNames(st0, evs) IN
+       CASE cur.ev = "round.import" ->
+              LET RECURSIVE imp(_, _)
+                  imp(s, es) == IF es = <<>> THEN s
+                                ELSE LET e == Head(es) IN
+                                     imp(IF e.ev = "import.new" THEN ImportLogged(b0, s, e.target, e.name, Range(e.keys), e.oai)
+                                         ELSE IF e.ev = "import.known" THEN [s EXCEPT !.doc = ImportKnown(s.doc, e.name, Range(e.keys))]
+                                         ELSE s, Tail(es))
+                  s1 == EndRound(imp(st, evs))
+              IN CtxRun(rec, b0, [s1 EXCEPT !.doc = cur.doc], i + 1)
+         [] cur.ev = "round.stripOAIGen" ->
+              \* the parents are collected on the document as it stands after pointer naming (the previous snapshot)
+              LET s0 == UpdateParents([st EXCEPT !.doc = rec.phases[i - 1].doc, !.rwc = FALSE])
+                  r  == CtxStripEvents(rec, s0, evs)
+              IN IF ~r[1] THEN <<FALSE, "strip." \o r[3]>>
+                 ELSE IF r[2].doc # cur.doc THEN <<FALSE, "strip.doc">>
+                 ELSE CtxRun(rec, b0, [r[2] EXCEPT !.doc = cur.doc], i + 1)
+         [] OTHER -> CtxRun(rec, b0, [st EXCEPT !.doc = cur.doc], i + 1)
+Ctx(rec) ==
+  (rec.ok /\ rec.crash = "none" /\ rec.inW /\ rec.phases # <<>> /\ rec.mode # "expand") =>
+     LET r == CtxRun(rec, rec.bundle, St0(RootOf(rec.bundle)), 1) IN
+     /\ Out(<<"VERDICT", rec.tid, "CTX", r[1]>>)
+     /\ (r[1] \/ Out(<<"DIAG", rec.tid, "CTX", r[2] \o "." \o rec.mode, <<>> >>))
+
+Init == l \in 1..K /\ l <= N /\ Verdict(Trace[l]) /\ Steps(Trace[l]) /\ Ctx(Trace[l])
+Next == l + K <= N /\ l' = l + K /\ Verdict(Trace[l']) /\ Steps(Trace[l']) /\ Ctx(Trace[l'])
 Spec == Init /\ [][Next]_l
 =============================================================================
